@@ -145,6 +145,22 @@ func init() {
 		"(time.Time).Equal": func(x *Exec, f *frame, m int, a []Val, in ssa.Value) (Val, bool) {
 			return Val{T: eq(x.timeNS(a[0].T), x.timeNS(a[1].T))}, true
 		},
+		"(time.Time).Add": func(x *Exec, f *frame, m int, a []Val, in ssa.Value) (Val, bool) {
+			if x.X.bvMode {
+				return Val{}, false
+			}
+			x.timeNS(a[0].T)
+			x.X.declare("time_add", "(declare-fun time_add (S_time_Time Int) S_time_Time)\n(assert (forall ((t S_time_Time) (d Int)) (! (= (time_ns (time_add t d)) (+ (time_ns t) d)) :pattern ((time_add t d)))))")
+			x.assumed["time.Time.Add/Sub: exact on the abstract nanosecond value (no saturation: times within +-292 years of each other)"] = true
+			return Val{T: sx("time_add", a[0].T, a[1].T)}, true
+		},
+		"(time.Time).Sub": func(x *Exec, f *frame, m int, a []Val, in ssa.Value) (Val, bool) {
+			if x.X.bvMode {
+				return Val{}, false
+			}
+			x.assumed["time.Time.Add/Sub: exact on the abstract nanosecond value (no saturation: times within +-292 years of each other)"] = true
+			return Val{T: sx("wrapS64", sx("-", x.timeNS(a[0].T), x.timeNS(a[1].T)))}, true
+		},
 		"(time.Time).UnixNano": func(x *Exec, f *frame, m int, a []Val, in ssa.Value) (Val, bool) {
 			x.assumed["time.Time.UnixNano: value within int64 range (dates 1678..2262)"] = true
 			return Val{T: sx("wrapS64", x.timeNS(a[0].T))}, true
@@ -166,7 +182,12 @@ func (x *Exec) useLower() {
 
 func (x *Exec) timeNS(t Term) Term {
 	ts := "S_time_Time"
-	x.X.declare("time_ns", fmt.Sprintf("(declare-fun time_ns (%s) Int)\n(declare-const time_zero Int)", ts))
+	z := "(mk_S_time_Time 0 0 0)"
+	if x.X.bvMode {
+		z = "(mk_S_time_Time (_ bv0 64) (_ bv0 64) 0)"
+	}
+	// the zero Time value (time.Time{}) is the one IsZero recognises
+	x.X.declare("time_ns", fmt.Sprintf("(declare-fun time_ns (%s) Int)\n(declare-const time_zero Int)\n(assert (= (time_ns %s) time_zero))", ts, z))
 	return sx("time_ns", t)
 }
 
@@ -296,9 +317,31 @@ func (x *Exec) externCall(f *frame, in ssa.Instruction, callee *ssa.Function, c 
 		}
 	case "math/rand/v2.Float64", "math/rand.Float64":
 		return x.randFloat64(st), true
+	case "math/rand/v2.Int32N", "math/rand/v2.IntN", "math/rand/v2.Int64N", "math/rand/v2.Uint32N", "math/rand/v2.Uint64N", "math/rand/v2.UintN",
+		"math/rand.Intn", "math/rand.Int31n", "math/rand.Int63n":
+		// rand.IntN(n) and friends: any r with 0 <= r < n; panics for n <= 0 (obligation at the call)
+		rt := callee.Signature.Results().At(0).Type()
+		zero := x.X.zero(rt)
+		x.safety(st, "panic", x.binop(token.GTR, args[0].T, zero, rt, rt, types.Typ[types.Bool]), in.Pos())
+		r := x.havocValue(st, rt, "rand")
+		x.assume(st, and(x.binop(token.GEQ, r, zero, rt, rt, types.Typ[types.Bool]), x.binop(token.LSS, r, args[0].T, rt, rt, types.Typ[types.Bool])))
+		x.comp("Ghost_lastrand", x.X.sortOf(rt))
+		st.heap["Ghost_lastrand"] = r
+		x.lastRand = r
+		x.assumed["extern "+name+": any r with 0 <= r < n, no effect on modelled state; panics for n <= 0 (proof obligation at the call)"] = true
+		return Val{T: r}, true
 	case "time.Now":
 		x.assumed["extern time.Now: arbitrary time value"] = true
 		return Val{T: x.havocValue(st, callee.Signature.Results().At(0).Type(), "now")}, true
+	}
+	// resolver.EndpointMap[T] (generic container, opaque to the model): Get/Len read it, Set and
+	// Delete change only the map itself, which no modelled heap component represents
+	if strings.HasPrefix(name, "(*google.golang.org/grpc/resolver.EndpointMap[") {
+		switch baseName(callee) {
+		case "Get", "Set", "Delete", "Len":
+			x.assumed["extern resolver.EndpointMap."+baseName(callee)+": reads / changes only the map object itself (result unconstrained)"] = true
+			return x.resultVal(st, callee.Signature, "epmap"), true
+		}
 	}
 	// loggers and other effect-free helpers
 	if isEffectFree(name) {
@@ -339,6 +382,10 @@ func isEffectFree(name string) bool {
 		"fmt.Sprintf", "fmt.Sprint", "google.golang.org/grpc/internal/channelz.", "(*google.golang.org/grpc/internal/grpclog.",
 		"google.golang.org/grpc/balancer/base.NewErrPicker",
 		"math.", // package math: pure functions (result unconstrained unless modelled elsewhere)
+		// metric handles: Record forwards to the MetricsRecorder plugin (telemetry only)
+		"(*google.golang.org/grpc/experimental/stats.Int64CountHandle).Record", "(*google.golang.org/grpc/experimental/stats.Float64CountHandle).Record",
+		"(*google.golang.org/grpc/experimental/stats.Int64HistoHandle).Record", "(*google.golang.org/grpc/experimental/stats.Float64HistoHandle).Record",
+		"(*google.golang.org/grpc/experimental/stats.Int64GaugeHandle).Record", "(*google.golang.org/grpc/experimental/stats.Int64UpDownCountHandle).Record",
 		"google.golang.org/grpc/internal/grpclog.",
 		// timers: Stop/Reset report whether the timer was active (result unconstrained); AfterFunc/NewTimer
 		// register a callback or channel; none of them touches modelled state synchronously
